@@ -741,6 +741,14 @@ class Harness:
                 h.world.t += sd[(h.n.get("cb:strategy", 1) - 1) % len(sd)]  # a strategy that takes time to answer
             return v
 
+        if name in self.cfg.get("builtin_strategies", ()):
+            # the library's OWN strategy factories registered directly (no wrapper of ours around the object the policy holds): what an
+            # everyday user writes.  They leave no "strategy" trace event; the checks that use this judge what reaches the sleeper.
+            import redress.strategies as _rs
+
+            fname, base, cap = self.cfg["builtin_strategies"][name]
+            return getattr(_rs, fname)(base_s=base, max_s=cap)
+
         if name in self.cfg.get("legacy", ()):
 
             def legacy(attempt, klass, prev_sleep_s):
